@@ -52,6 +52,10 @@ PDU_NAMES = {0: 'ATR', 1: 'ATR', 4: 'PSL', 5: 'PSL', 6: 'DEP', 7: 'DEP',
 PFB_NAMES = {0: "INF", 1: "INF+", 4: "ACK", 5: "NAK", 8: "ATN", 9: "RTOX"}
 
 
+class FrameStorm(Exception):
+    """more frames than any bounded conversation needs (endless exchange)"""
+
+
 class _Kill(BaseException):
     """unwinds the parked target stack when the run is abandoned"""
 
@@ -92,8 +96,10 @@ class Frame(object):
 
 
 class Air(object):
-    def __init__(self, sx, tech='106A', max_faults=0, window=40):
+    def __init__(self, sx, tech='106A', max_faults=0, window=40,
+                 max_frames=400):
         self.sx = sx
+        self.max_frames = max_frames
         self.tech = tech            # technology the target answers polling at
         self.brty = tech            # bit rate / framing currently on the air
         self.max_faults, self.window = max_faults, window
@@ -220,6 +226,8 @@ class Air(object):
 
     def ini_exchange(self, data, timeout):
         with self.cv:
+            if len(self.frames) >= self.max_frames:
+                raise FrameStorm()
             frame = Frame('I', self.brty, bytearray(data), self.step)
             self.frames.append(frame)
             f = self._fault(frame)
